@@ -25,6 +25,7 @@ EXTENDS Naturals, Sequences, FiniteSets, TLC, Json
 Kinds == {"assign", "annassign", "walrus", "tuple", "starred", "for", "with", "except", "comp",
           "param", "kwonly", "vararg", "kwarg", "posonly", "def", "class",
           "import", "fromimport", "dotted", "aliased", "star", "future", "globaldecl",
+          "nonlocaldecl",                  \* x = 0 in the enclosing function, `nonlocal x; x = 1` in the nested one: two bindings of one local of the outer function
           "dupimport", "aliasclash",       \* two bindings of one identifier in one statement: import x, x.sub / from os import x as y, y
           "fromalias", "fromalias_us",     \* from os import path as NAME / from os import _exit as NAME (the shape rule looks at NAME)
           "fortuple", "withtuple", "comptuple", "nestedtuple"}   \* the identifier inside a tuple target
@@ -40,6 +41,7 @@ Legal(k, s, sh) ==
   /\ (k = "future" => s = "module" /\ sh = "x")                                   \* from __future__ import only at module level
   /\ (k = "star" => s = "module" /\ sh = "x")
   /\ (k = "globaldecl" => s \in {"function", "method", "nested", "inmethod"})
+  /\ (k = "nonlocaldecl" => s \in {"nested", "inmethod"})                         \* needs an enclosing function that owns the name
   /\ (k \in {"dotted", "dupimport", "aliasclash"} => sh = "x")
   /\ (k = "posonly" => s # "lambda" \/ TRUE)
 
